@@ -19,10 +19,12 @@ package serf
 //@ rely LamportClock.counter nondecreasing
 
 //@ func (l *LamportClock) Time() (t LamportTime)
+//@   requires receiver: l != nil
 //@   ensures reads_clock [C19]: l.Time() >= t && uint64(t) >= old(uint64(l.Time()))
 //@ end
 
 //@ func (l *LamportClock) Increment() (t LamportTime)
+//@   requires receiver: l != nil
 //@   ensures incr_past_entry [C19]: uint64(t) > old(uint64(l.Time()))
 //@   ensures incr_le_now [C19]: l.Time() >= t
 //@   # distinctness under concurrency: the value returned is the one written by this
@@ -32,6 +34,7 @@ package serf
 //@ end
 
 //@ func (l *LamportClock) Witness(v LamportTime)
+//@   requires receiver: l != nil
 //@   case wrap_at_max: uint64(v) == maxU64()
 //@   ensures moves_past [C19]: l.Time() > v
 //@   ensures never_back [C19]: l.Time() >= old(l.Time())
@@ -39,6 +42,7 @@ package serf
 //@ end
 
 //@ lemma increments_distinct [C19] (l *LamportClock) {
+//@   if l == nil { return }
 //@   a := l.Increment()
 //@   b := l.Increment()
 //@   assert("distinct", "C19", a != b)
